@@ -157,7 +157,9 @@ extern "C" void let_main()
 {
     leaf l = mk(0), l2 = mk(1);
     record rec;
-    auto s = ex::let_value(l, [l2](int& x) {
+    bool throws = verif_nondet_range(0, 1);
+    auto s = ex::let_value(l, [l2, throws](int& x) {
+        if (throws) throw test_error{55};
         leaf n = l2;
         n.value += x;
         return n;
@@ -165,7 +167,12 @@ extern "C" void let_main()
     auto o = ex::connect(std::move(s), recv<>{&rec});
     ex::start(o);
     verif_assert(rec.signals == 1, "exactly one completion signal");
-    if (l.chan == ch_value)
+    if (l.chan == ch_value && throws)
+    {
+        verif_assert(rec.chan == ch_error && rec.err == 55, "let_value: an exception thrown by f arrives as that error");
+        verif_assert(leaf_started[1] == 0, "let_value: no successor is started when f throws");
+    }
+    else if (l.chan == ch_value)
     {
         verif_assert(leaf_started[1] == 1, "let_value: the successor sender is started exactly once");
         if (l2.chan == ch_value) verif_assert(rec.chan == ch_value && rec.value == l.value + l2.value, "let_value: completes with the successor's value");
@@ -187,11 +194,20 @@ extern "C" void lete_main()
 {
     leaf l = mk(0), l2 = mk(1);
     record rec;
-    auto s = ex::let_error(l, [l2](std::exception_ptr&) { return l2; });
+    bool throws = verif_nondet_range(0, 1);
+    auto s = ex::let_error(l, [l2, throws](std::exception_ptr&) {
+        if (throws) throw test_error{56};
+        return l2;
+    });
     auto o = ex::connect(std::move(s), recv<>{&rec});
     ex::start(o);
     verif_assert(rec.signals == 1, "exactly one completion signal");
-    if (l.chan == ch_error)
+    if (l.chan == ch_error && throws)
+    {
+        verif_assert(rec.chan == ch_error && rec.err == 56, "let_error: an exception thrown by f arrives as that error");
+        verif_assert(leaf_started[1] == 0, "let_error: no recovery sender is started when f throws");
+    }
+    else if (l.chan == ch_error)
     {
         verif_assert(leaf_started[1] == 1, "let_error: the recovery sender is started exactly once");
         if (l2.chan == ch_value) verif_assert(rec.chan == ch_value && rec.value == l2.value, "let_error: completes with the recovery sender's value");
